@@ -270,7 +270,7 @@ fn lattices(rep: &mut Report) {
     let dl = dur_lattice();
     let mut n = 0u64;
     let mut first: Option<(String, String)> = None;
-    let mut note = |r: Result<(), (String, String)>, first: &mut Option<(String, String)>| {
+    let note = |r: Result<(), (String, String)>, first: &mut Option<(String, String)>| {
         if let Err(e) = r {
             if first.is_none() {
                 *first = Some(e);
@@ -337,7 +337,7 @@ fn case_sample(t: &mut Tape) -> CaseOut {
         _ => *t.pick(&[i64::MAX, i64::MIN, 0, -1, 1]),
     };
     out.render = json!({"T1_bits": format!("0x{:x}", a), "T2_bits": format!("0x{:x}", b), "D_bits": d.to_string(), "time_interval_bits": ti});
-    let mut fail = |r: Result<(), (String, String)>, out: &mut CaseOut| {
+    let fail = |r: Result<(), (String, String)>, out: &mut CaseOut| {
         if let Err((s, dd)) = r {
             out.fail(s, dd);
         }
